@@ -21,7 +21,7 @@ TRUSTED_BASE = [
 
 # properties whose every clause is carried by contracts on the functions it is anchored in (level `proof` when every
 # obligation discharges; anything less is reported as `other` with the proved / bounded split in the evidence)
-PROOF_PROPS = {'C08', 'C12'}
+PROOF_PROPS = {'C08', 'C12', 'C13'}
 
 
 def build_registry() -> Registry:
@@ -41,10 +41,23 @@ def run_property(prop: str, tier: str):
     timeout = 10 if tier == 'quick' else 60
     functions, obligations, unsupported, errors = [], [], [], []
     src_of = {}
-    for key, c in reg.contracts.items():
-        if c.trusted or prop not in c.props:
+    # the property's own functions, plus (transitively) every function whose contract they are verified against
+    all_called = set()
+    todo = [k for k, c in reg.contracts.items() if not c.trusted and prop in c.props]
+    seen = set()
+    while todo:
+        key = todo.pop(0)
+        if key in seen:
+            continue
+        seen.add(key)
+        c = reg.contracts[key]
+        if c.trusted:
             continue
         rep = verify_function(reg, c)
+        all_called |= rep.called
+        for k2 in sorted(rep.called):
+            if k2 not in seen and k2 in reg.contracts and not reg.contracts[k2].trusted:
+                todo.append(k2)
         if rep.error:
             if rep.error.startswith('missing function'):
                 unsupported.append({'function': key, 'reason': rep.error})
@@ -73,7 +86,8 @@ def run_property(prop: str, tier: str):
     failed, unknown, by_backend, solver_seconds = [], [], {}, 0.0
     n_obl = n_dis = 0
     samples = []
-    assumed = sorted({k for k, c in reg.contracts.items() if c.trusted})
+    assumed = sorted({k for k in seen if reg.contracts[k].trusted} | {k for k, c in reg.contracts.items() if c.trusted and any(k in getattr(r, 'called', ()) for r in [])})
+    assumed = sorted({k for k, c in reg.contracts.items() if c.trusted and k in all_called})
     for o in obligations:
         v, backend, secs, model = res[o.name]
         solver_seconds += secs
@@ -108,6 +122,8 @@ def evidence(prop, tier, seed, pr, fl, violations, known_lines, undecided, check
     if (pr and prop in PROOF_PROPS and pr['n_obligations'] > 0 and pr['n_discharged'] == pr['n_obligations']
             and not pr['unsupported'] and not pr['errors']):
         level = 'proof'
+    elif (not pr or not pr['functions']) and fl:
+        level = 'exploration'
     assumptions = []
     if pr:
         cov.update({
